@@ -40,6 +40,14 @@ def make_texts(rng):
     a.add_task("i1", parent=inner, effort=3 * 3600, alloc=[r0], deps=[(lo, False, 0)])
     a.add_task("ms", parent=inner, milestone=True, deps=[(b2, False, 0)])
     a.add_task("tail", effort=2 * 3600, alloc=[r1], prio=300, deps=[(box, False, 3600)])
+    # allocations with several alternatives that are NOT interchangeable (staggered leaves): the order in which
+    # the alternatives are kept decides the choice
+    d0 = datetime(2024, 3, 4)
+    for k, (n1, n2, n3) in enumerate((("gpu", "cpub", "cpuc"), ("kiln", "oven", "forge"), ("lathe", "mill", "drill"), ("vm1", "vm2", "vm3"))):
+        prim = a.add_res(n1, leaves=[(d0, d0 + timedelta(days=9))])
+        slow = a.add_res(n2, leaves=[(d0, d0 + timedelta(days=16))])
+        free = a.add_res(n3)
+        a.add_task("x%d" % k, effort=16 * 3600, alloc=[prim], alt=[slow, free] if k % 2 == 0 else [free, slow], prio=450)
     a.extra = REPORT
     b = gen.limits_profile(rng, 1)[0][1]
     b.scenarios = [("plan", [("alt", [])])]
